@@ -5,7 +5,10 @@
                  get_series_volume_positions, get_plane_sort_index,
                  get_dataset_sort_index / sort_datasets
      image.py    get_volume_from_series (ordering + geometry),
-                 _Image._get_stacked_volume_geometry / get_volume (frame placement)
+                 _Image._get_stacked_volume_geometry / get_volume (frame placement),
+                 Image.get_volume_geometry / _get_volume_geometry and
+                 seg/sop.py Segmentation.get_volume_geometry (defaults + forwarding of the
+                 allow_missing_positions / allow_duplicate_positions declarations)
    Arithmetic is exact over Q; the tolerances are rational constants/parameters.
    np.unique(axis=0) = lexicographically sorted distinct rows; np.argsort = stable
    insertion sort; np.round = round-half-even.  No proofs in this file. *)
